@@ -13,8 +13,9 @@ def tail(s, n=2500):
 
 def run(ctx):
     ctx.rule = ("(a) decision function: all combinations of offer/existing fields over small code sets, run on the real "
-                "Negotiation.compareOfferAndExisting and on the translated function; (b) traces: 25 scripted + seeded schedules of two real "
-                "Tubs (lookups with 1-3 hints, block deliveries, asynchronous cuts, close notifications, restarts, forced connector "
+                "Negotiation.compareOfferAndExisting and on the translated function; (b) traces: 29 scripted + seeded schedules of two real "
+                "Tubs (lookups with 1-3 hints, lookups whose FURL has no usable hint / whose endpoints refuse at once = the connector fails "
+                "synchronously inside getBrokerForTubRef (7 kinds of such hints; the model's derived operation nohints_ops), block deliveries, asynchronous cuts, close notifications, restarts, forced connector "
                 "time-outs, passage of virtual time up to the next armed timer (connector timers and the listening ends' negotiation "
                 "timers fire), instant retries armed for the next errback, handle-old set on the master); after every step the real "
                 "state is compared with the Coq model: clock, brokers, master/slave tables, connector and its deadline, Broker creation "
@@ -25,7 +26,10 @@ def run(ctx):
                 "from the side that noticed (both dial directions, several rounds, with and without a concurrent outbound negotiation to "
                 "a third Tub set up just before / within the first round trip of the redial), lookups issued re-entrantly from "
                 "callbacks/errbacks, lookups queued before Tub.startService() (1-5, same Tub and a third Tub) followed by the start and "
-                "the same races; an exception raised inside a timer callback is logged and the loop goes on, as in a reactor")
+                "the same races; lookups whose connector fails synchronously (no hints, unknown type, malformed, handler raises, refused at once, "
+                "mixtures; 1-3 in a row; fresh / after a lost connection / after a peer restart / queued before the start; peer or third "
+                "Tub) followed by a good lookup (fault-free: must succeed; black hole: must fail at its own time-out), an inbound "
+                "connection, both, or a good lookup from inside the errback; an exception raised inside a timer callback is logged and the loop goes on, as in a reactor")
     ctx.assumptions = [
         "TLS is a no-op startTLS; peerFromTransport returns the peer Tub's certificate",
         "the model delivers whole negotiation blocks; the GET/101 exchange and the TCP connect are folded into the dial step "
@@ -149,6 +153,14 @@ def hobs(obs):
 
 
 def coq_op(o):
+    """a schedule element of the harness (Converge.hop): a model operation, or a lookup whose connector fails synchronously"""
+    t = {"M": "TM", "S": "TS"}
+    if o[0] == "GetRefNoHints":
+        return "GetRefNoHints %s" % t[o[1]]
+    return "Plain (%s)" % coq_plain_op(o)
+
+
+def coq_plain_op(o):
     t = {"M": "TM", "S": "TS"}
     if o[0] in ("GetRef", "DialHint", "Restart", "Timeout", "ArmRetry"):
         return "%s %s" % (o[0], t[o[1]])
@@ -165,8 +177,8 @@ HASHDEF = """
 Definition hrow (a : Z) (row : list Z) : Z :=
   fold_left (fun a z => (a * 257 + z + 11) mod 16777213)%Z row ((a * 7 + 3) mod 16777213)%Z.
 Definition hobs (o : list (list Z)) : Z := fold_left hrow o 17%Z.
-Fixpoint trace_h (s : state) (ops : list op) : list Z :=
-  match ops with [] => [] | o :: r => let s' := step s o in hobs (obs s') :: trace_h s' r end.
+Fixpoint trace_h (s : state) (ops : list hop) : list Z :=
+  match ops with [] => [] | o :: r => let s' := hstep s o in hobs (obs s') :: trace_h s' r end.
 """
 
 
@@ -192,7 +204,7 @@ def correspond_traces(ctx, impl):
             ctx.hist("trace_reentrant_lookups", min(w.reentered, 3))
             kinds = [g[2][0] for g in groups]
             established = any(row[0] >= 0 for g in groups for row in g[1][:2])
-            eventful = any(k in ("cut", "restart", "timeout", "armretry") for k in kinds) or \
+            eventful = any(k in ("cut", "restart", "timeout", "armretry", "lookupbad") for k in kinds) or \
                 any(3 in row[4:] for g in groups for row in g[1][2:])
             ctx.case([[g[0] for g in groups]], nontrivial=established and eventful)
             ctx.hist("trace_len", n)
@@ -244,7 +256,7 @@ def correspond_traces(ctx, impl):
 
 def report_trace_mismatch(ctx, groups, gi):
     ops = [o for g in groups[:gi + 1] for o in g[0]]
-    body = "Eval vm_compute in obs (fold_left step %s init).\n" % coq_list([coq_op(o) for o in ops])
+    body = "Eval vm_compute in obs (fold_left hstep %s init).\n" % coq_list([coq_op(o) for o in ops])
     try:
         (mobs,) = ctx.coq_eval("C14_tr_diag", body, requires=REQ)
     except common.CoqEvalError as e:
